@@ -194,7 +194,46 @@ def r1(ctx: Ctx) -> RuleReport:
     it = ctx.repo.func(L, 'interpret')
     zipped = any(isinstance(n, ast.For) and isinstance(n.target, ast.Tuple) and len(n.target.elts) == 2
                  for f in local_callees(ctx, it, depth=1) if f.fq != fi.fq for n in walk_local(f.node))
-    rep.add('penman.layout:interpret: epidata entries are consumed pairwise (triple, markers)', it.loc(), 'ok' if zipped else 'undecided')
+    # dict(<pairs>) / {t: e for t, e in <pairs>} also pair them up, but a later pair replaces an earlier one with the same key
+    lastwins = None
+    for f in local_callees(ctx, it, depth=1):
+        if f.fq == fi.fq:
+            continue
+        for n in walk_local(f.node):
+            if isinstance(n, ast.Call) and norm(n.func) == 'dict' and len(n.args) == 1 and not n.keywords and isinstance(n.args[0], ast.Name) \
+                    and 'epi' in n.args[0].id.lower():
+                lastwins = (f, n)
+            if isinstance(n, ast.DictComp) and len(n.generators) == 1 and isinstance(n.generators[0].target, ast.Tuple) and len(n.generators[0].target.elts) == 2 \
+                    and isinstance(n.generators[0].iter, ast.Name) and 'epi' in n.generators[0].iter.id.lower() and not n.generators[0].ifs:
+                lastwins = (f, n)
+    if zipped and not lastwins:
+        # the loop form: the store under a triple is made only when the triple has no entry yet (first statement wins)
+        from ..resolve import facts_ex
+        for f in local_callees(ctx, it, depth=1):
+            if f.fq == fi.fq:
+                continue
+            for lp in walk_local(f.node):
+                if not (isinstance(lp, ast.For) and isinstance(lp.target, ast.Tuple) and len(lp.target.elts) == 2 and isinstance(lp.target.elts[0], ast.Name)):
+                    continue
+                tv = lp.target.elts[0].id
+                for st_ in ast.walk(lp):
+                    if isinstance(st_, ast.Assign) and isinstance(st_.targets[0], ast.Subscript) and norm(st_.targets[0].slice) == tv \
+                            and isinstance(st_.targets[0].value, ast.Name):
+                        mp = st_.targets[0].value.id
+                        fx = {(x.replace(' ', ''), pol) for x, pol in facts_ex(ctx, f, st_)}
+                        first_wins = (f'{tv}in{mp}', False) in fx or (f'{tv}notin{mp}', True) in fx
+                        if not first_wins:
+                            lastwins = (f, st_)
+        if lastwins:
+            zipped = False
+    if lastwins and not zipped:
+        f, n = lastwins
+        rep.violation('penman.layout:interpret: epidata entries are consumed pairwise (triple, markers)', f.loc(n),
+                      f'`{norm(n)[:60]}` keeps, for a triple that the text states twice, the markers of its LAST statement (a later pair replaces an earlier one); the '
+                      f'interpreter is specified to keep those of the first. Both copies of the triple are then laid out with the last copy\'s markers: if that copy closes '
+                      f'its node (POP), the node is closed at the first copy and the second is re-attached elsewhere - the output is not reproduced when fed back')
+    else:
+        rep.add('penman.layout:interpret: epidata entries are consumed pairwise (triple, markers)', it.loc(), 'ok' if zipped else 'undecided')
     # the POP goes to the last entry of the nested result
     pops = [n for n in walk_local(fi.node) if isinstance(n, ast.Call) and isinstance(n.func, ast.Attribute) and n.func.attr == 'append'
             and n.args and norm(n.args[0]) in ('POP', 'Pop()')]
@@ -484,6 +523,29 @@ def r36(ctx: Ctx) -> RuleReport:
                 and len(n.body) == 1 and isinstance(n.body[0], ast.Break):
             brk_ok = True
     rep.add('penman.layout:_configure_node: a Pop datum ends the current node (break)', cn.loc(), 'ok' if brk_ok else 'undecided')
+    # ... and nothing else does, except a datum that could not be placed and was put back
+    for n in walk_local(cn.node):
+        if not isinstance(n, (ast.Break, ast.Return)) or (isinstance(n, ast.Return) and cfg3.node_of(n) == cfg3.exit):
+            continue
+        if isinstance(n, ast.Return):
+            continue
+        fx3 = facts_at(cfg3, IN3, pm3, n)
+        under_pop = any(pol and f.startswith('isinstance(') and f.endswith(', Pop)') for f, pol in fx3)
+        blk = pm3.get(id(n))
+        sibs = []
+        for fld in ('body', 'orelse'):
+            if n in getattr(blk, fld, []):
+                sibs = getattr(blk, fld)
+        put_back = any(isinstance(x, ast.Expr) and isinstance(x.value, ast.Call) and isinstance(x.value.func, ast.Attribute) and x.value.func.attr in ('append', 'extend')
+                       and norm(x.value.func.value) == cn.positional[1] for x in sibs[:sibs.index(n)]) if sibs else False
+        n_brk = 1 + sum(1 for x in walk_local(cn.node) if isinstance(x, ast.Break) and (x.lineno, x.col_offset) < (n.lineno, n.col_offset))
+        key = f'penman.layout:_configure_node: break #{n_brk} ends the node only at a Pop or for a datum it puts back'
+        if under_pop or put_back:
+            rep.ok(key, cn.loc(n), 'Pop datum' if under_pop else 'datum put back')
+        else:
+            conds = sorted(f if pol else f'not ({f})' for f, pol in fx3)[:4]
+            rep.violation(key, cn.loc(n), f'under {conds} the loop is left although the datum is neither a Pop nor put back on the data: the node is closed early, the rest of its '
+                          f'triples (up to its real Pop) are configured into the enclosing node and the Pop then closes that one')
     recs = [c for c, ts in ctx.cg.calls_in(cn) if any(t.kind == 'func' and t.func.fq == cn.fq for t in ts)]
     good = len(recs) == 1 and ('push', True) in facts_at(cfg3, IN3, pm3, recs[0])
     rep.add('penman.layout:_configure_node: a honoured Push opens exactly one nested node', cn.loc(), 'ok' if good else 'undecided',
@@ -893,6 +955,12 @@ def r44(ctx: Ctx) -> RuleReport:
     pm = ctx.repo.parent_map(fi.node)
     false_rets = [nd for nd in cfg.nodes if nd.kind == 'stmt' and isinstance(nd.ast, ast.Return)
                   and isinstance(nd.ast.value, ast.Constant) and nd.ast.value.value is False]
+    for nd in cfg.nodes:
+        if nd.kind == 'stmt' and isinstance(nd.ast, ast.Return) and (nd.ast.value is None or (isinstance(nd.ast.value, ast.Constant) and nd.ast.value.value is not False)):
+            val = None if nd.ast.value is None else nd.ast.value.value
+            rep.violation('penman.layout:appears_inverted: an answer that rests on no marker and no node context is False', fi.loc(nd.ast),
+                          f'`{norm(nd.ast)}` answers {val!r} without comparing anything: for a triple whose context is unknown (a graph without markers, a triple that is not '
+                          f'in the graph) the documented answer is False' + ('; a truthy constant makes reify_edges swap the two new triples of every such edge' if val else ''))
     ctx_loop = None
     for n in walk_local(fi.node):
         if isinstance(n, ast.For) and 'node_contexts(' in norm(n.iter):
@@ -1282,6 +1350,24 @@ def r97(ctx: Ctx) -> RuleReport:
                           f'the node is opened a second time')
         else:
             rep.ok(key, fi.loc(nd.ast))
+    if not any('recognises a node that exists already' in i.key for i in rep.instances):
+        # is the map of configured nodes consulted at all before a node is opened?
+        nm_param = fi.positional[2] if len(fi.positional) > 2 else 'nodemap'
+        derived = {nm for nm, vals in ctx.cg.local_assigns(fi).items() for v in vals if isinstance(v, ast.AST) and nm_param in norm(v) and not isinstance(v, ast.Tuple)}
+        consult = []
+        for nd in cfg.nodes:
+            if nd.kind == 'cond' and any(isinstance(x, ast.Name) and (x.id in derived) for x in ast.walk(nd.ast)):
+                clears3 = {n2.id for n2 in cfg.nodes if n2.kind == 'stmt' and isinstance(n2.ast, ast.Assign) and any(isinstance(x, ast.Name) and x.id in flags for x in n2.ast.targets)
+                           and isinstance(n2.ast.value, ast.Constant) and n2.ast.value.value is False}
+                if any(cfg.path_avoiding([(nd.id, lab)], clears3, lambda n2: n2.kind == 'loophead') for lab in ('T', 'F')):
+                    consult.append(nd)
+        key = f'{fi.fq}: a Push whose node exists already does not open it again'
+        if consult:
+            rep.undecided(key, fi.loc(consult[0].ast), f'`{norm(consult[0].ast)[:60]}` consults the node map and can clear the flag, in a form this rule does not read')
+        else:
+            rep.violation(key, fi.loc(recs[0]), f'no test that involves the map of configured nodes ({sorted(derived) or nm_param}) can clear {sorted(flags)} before `{norm(recs[0])[:40]}`: a Push marker '
+                          f'that names a node which was configured already (the graph was re-topped, or triples were reordered) opens that node a second time - its first '
+                          f'occurrence is orphaned in the map and the variable is written as a full node twice')
     for t in turns:
         tn = cfg.node_of(t)
         for c in recs:
@@ -1338,4 +1424,158 @@ def r108(ctx: Ctx) -> RuleReport:
                       f'passed over are dropped - a triple (for instance the instance triple of a node) silently disappears from the encoded graph')
     else:
         rep.ok(key, fi.loc(a), f'used at {len(uses)} place(s), on every path back to the loop head')
+    return rep
+
+
+# ---------------------------------------------------------------------------------------------
+@rule('R110', "interpretation separates a role or atom from its alignment at the first '~' the token can contain: no search for it starts behind a position where it can stand")
+def r110(ctx: Ctx) -> RuleReport:
+    import re as _re
+    from ..rx import Lang
+    from ..resolve import facts_ex
+    rep = RuleReport('R110', r110.title, floor=2)
+    cp = ctx.lex.compiled['PENMAN_RE']
+    langs = {'ROLE+ALIGNMENT': cp.lang('ROLE').cat(cp.lang('ALIGNMENT')), 'SYMBOL+ALIGNMENT': cp.lang('SYMBOL').cat(cp.lang('ALIGNMENT'))}
+    m = ctx.repo.module('penman.layout')
+    for fi in m.all_funcs:
+        for n in walk_local(fi.node):
+            if not (isinstance(n, ast.Call) and isinstance(n.func, ast.Attribute) and n.args and try_fold(n.args[0]) == (True, '~')
+                    and n.func.attr in ('partition', 'split', 'find', 'index', 'rpartition', 'rsplit', 'rfind', 'rindex')):
+                continue
+            key = f'{fi.fq}: `{norm(n)[:50]}` finds the alignment of the token'
+            quoted = any(pol and '.startswith(' in f and '"' in f for f, pol in facts_ex(ctx, fi, n))
+            attr = n.func.attr
+            if attr in ('find', 'index') and len(n.args) >= 2:
+                oks, k = try_fold(n.args[1], {}, ctx.repo, fi.module)
+                if not oks or not isinstance(k, int):
+                    rep.undecided(key, fi.loc(n), 'the search starts at a position that is not a constant')
+                    continue
+                if k <= 0:
+                    rep.ok(key, fi.loc(n), 'search from the start')
+                    continue
+                early = Lang.from_pattern('.{0,%d}~.*' % (k - 1), _re.S)
+                wit = [(nm, L.witness_intersection(early)) for nm, L in langs.items()]
+                wit = [(nm, w) for nm, w in wit if w is not None]
+                if wit and not quoted:
+                    nm, w = wit[0]
+                    rep.violation(key, fi.loc(n), f'the search skips the first {k} characters, but a {nm} token can have its "~" there: {w!r} - the alignment stays glued to '
+                                  f'the role/atom (a different role or symbol) and the alignment marker is lost')
+                else:
+                    rep.ok(key, fi.loc(n), f'no role or symbol token has "~" among its first {k} characters')
+            elif attr in ('partition', 'split', 'find', 'index'):
+                rep.ok(key, fi.loc(n), 'first "~"')
+            else:
+                twice = Lang.from_pattern('.*~.*~.*', _re.S)
+                wit = [(nm, L.witness_intersection(twice)) for nm, L in langs.items()]
+                wit = [(nm, w) for nm, w in wit if w is not None]
+                if quoted or not wit:
+                    rep.ok(key, fi.loc(n), 'last "~" (a role or symbol token holds at most one)' if not quoted else 'last "~" of a quoted string')
+                else:
+                    rep.undecided(key, fi.loc(n), f'last "~", and a token can hold two: {wit[0][1]!r}')
+    return rep
+
+
+# ---------------------------------------------------------------------------------------------
+@rule('R113', 'node_contexts: the node of the target is a candidate context for every relation whose target is a variable of the graph (not for a subset of them)')
+def r113(ctx: Ctx) -> RuleReport:
+    from ..resolve import facts_ex
+    rep = RuleReport('R113', r113.title, floor=1)
+    fi = ctx.repo.func('penman.layout', 'node_contexts')
+    g = fi.positional[0]
+    las = ctx.cg.local_assigns(fi)
+    tests = []
+    for n in walk_local(fi.node):
+        if isinstance(n, ast.Compare) and len(n.ops) == 1 and isinstance(n.ops[0], (ast.In, ast.NotIn)) and isinstance(n.left, ast.Subscript) \
+                and try_fold(n.left.slice) == (True, 2):
+            tests.append(n)
+    if not tests:
+        rep.undecided(f'{fi.fq}: the target is tested for being a variable', fi.loc(), 'no `<triple>[2] in <set>` test')
+        return rep
+    for t in tests:
+        key = f'{fi.fq}: `{norm(t)}` asks whether the target is a variable of the graph'
+        s = t.comparators[0]
+        src = s
+        if isinstance(s, ast.Name):
+            vals = las.get(s.id, [])
+            if len(vals) != 1 or not isinstance(vals[0], ast.AST):
+                rep.undecided(key, fi.loc(t), f'`{s.id}` has {len(vals)} definitions')
+                continue
+            src = vals[0]
+        if isinstance(src, ast.Call) and isinstance(src.func, ast.Attribute) and norm(src.func.value) == g:
+            if src.func.attr == 'variables':
+                rep.ok(key, fi.loc(t), f'{norm(src)}')
+            elif src.func.attr in ('reentrancies', 'edges', 'attributes', 'instances'):
+                what = {'reentrancies': 'only the variables with more than one incoming relation (or the top with one)', 'edges': 'edge triples',
+                        'attributes': 'attribute triples', 'instances': 'instance triples'}[src.func.attr]
+                rep.violation(key, fi.loc(t), f'the set is {norm(src)}: {what}, not the variables. A relation written from its target\'s node whose target is not in '
+                              f'that set (an inverted edge to a node that is mentioned once, e.g. "(b / B :ARG0-of (a / A))" re-topped, or any hand-ordered graph) '
+                              f'finds no eligible context, and from there on every context is reported unknown')
+            else:
+                rep.undecided(key, fi.loc(t), norm(src)[:60])
+        elif isinstance(src, ast.SetComp) and isinstance(src.elt, (ast.Name, ast.Subscript)):
+            rep.add(key, fi.loc(t), 'info', f'a set built locally: {norm(src)[:60]}')
+        else:
+            rep.undecided(key, fi.loc(t), norm(src)[:60])
+    return rep
+
+
+# ---------------------------------------------------------------------------------------------
+@rule('R124', 'node_contexts: the target is a candidate only for relations to a variable, a context is recorded only when the stack top is a candidate, and the first mismatch ends the simulation')
+def r124(ctx: Ctx) -> RuleReport:
+    from ..resolve import facts_ex
+    rep = RuleReport('R124', r124.title, floor=2)
+    fi = ctx.repo.func('penman.layout', 'node_contexts')
+    loops = [n for n in walk_local(fi.node) if isinstance(n, ast.For) and '.triples' in norm(n.iter)]
+    if len(loops) != 1:
+        rep.undecided(f'{fi.fq}: one loop over the triples', fi.loc(), f'{len(loops)} loops')
+        return rep
+    loop = loops[0]
+    tnames = [x.id for x in ast.walk(loop.target) if isinstance(x, ast.Name)]
+    tv = tnames[-1] if tnames else None
+    # (a) the target joins the candidates only under role != CONCEPT_ROLE and target in variables
+    apps = [n for n in ast.walk(loop) if isinstance(n, ast.Call) and isinstance(n.func, ast.Attribute) and n.func.attr == 'append' and n.args
+            and any(isinstance(x, ast.Subscript) and norm(x.value) == tv and try_fold(x.slice) == (True, 2) for x in ast.walk(n.args[0]))]
+    for a in apps:
+        lst = norm(a.func.value)
+        fx = {(f.replace(' ', ''), pol) for f, pol in facts_ex(ctx, fi, a)}
+        not_concept = (f'{tv}[1]!=CONCEPT_ROLE', True) in fx or (f'{tv}[1]==CONCEPT_ROLE', False) in fx
+        is_var = any(pol and f.startswith(f'{tv}[2]in') for f, pol in fx) or any((not pol) and f.startswith(f'{tv}[2]notin') for f, pol in fx)
+        key = f'{fi.fq}: `{norm(a)[:50]}` makes the target a candidate context'
+        if not_concept and is_var:
+            rep.ok(key, fi.loc(a), 'only for a relation whose target is a variable')
+        else:
+            miss = [w for w, okk in (('the role is not the concept role', not_concept), ('the target is a variable of the graph', is_var)) if not okk]
+            rep.violation(key, fi.loc(a), f'the target is added to `{lst}` without it being established that {" and that ".join(miss)}: a concept or constant that is spelled like '
+                          f'the variable on top of the stack - (a / a), :polarity a - is taken for the node the triple was written in, and the simulation runs on where '
+                          f'it should have stopped')
+    if not apps:
+        rep.undecided(f'{fi.fq}: the target of a relation is a candidate context', fi.loc(loop), 'no append of <triple>[2]')
+    # (b) a context is recorded only when the stack top is among the candidates
+    stores = [n for n in ast.walk(loop) if isinstance(n, ast.Assign) and isinstance(n.targets[0], ast.Subscript) and 'stack[-1]' in norm(n.value).replace(' ', '')]
+    for st in stores:
+        fx = {(f.replace(' ', ''), pol) for f, pol in facts_ex(ctx, fi, st)}
+        elig = any((f.startswith('stack[-1]notin') and not pol) or (f.startswith('stack[-1]in') and pol) for f, pol in fx)
+        nonempty = ('stack', True) in fx or ('notstack', False) in fx
+        key = f'{fi.fq}: `{norm(st)[:40]}` records the stack top as the context'
+        if elig and nonempty:
+            rep.ok(key, fi.loc(st), 'stack not empty and its top a candidate')
+        elif not elig:
+            rep.violation(key, fi.loc(st), 'the stack top is recorded as the context of the triple without having been found among the candidates (source, or target of a relation): '
+                          'a triple is attributed to a node that did not write it, instead of ending the simulation with "unknown"')
+        else:
+            rep.undecided(key, fi.loc(st), 'no test that the stack is not empty')
+    if not stores:
+        rep.undecided(f'{fi.fq}: the stack top is recorded as the context', fi.loc(loop), 'no store of stack[-1]')
+    # (c) the mismatch ends the loop
+    for n in ast.walk(loop):
+        if isinstance(n, ast.If) and 'stack[-1]notin' in norm(n.test).replace(' ', ''):
+            key = f'{fi.fq}: a triple whose candidates do not include the stack top ends the simulation'
+            body = n.body
+            if len(body) == 1 and isinstance(body[0], (ast.Break, ast.Return)):
+                rep.ok(key, fi.loc(n), norm(body[0]))
+            elif len(body) == 1 and isinstance(body[0], (ast.Continue, ast.Pass)):
+                rep.violation(key, fi.loc(body[0]), f'after the mismatch the loop goes on (`{norm(body[0])}`): the stack no longer corresponds to the triples, yet later triples are '
+                              f'given contexts from it - guesses reported as facts, where the documented answer is unknown (None) from the mismatch on')
+            else:
+                rep.undecided(key, fi.loc(n), norm(body[0])[:40])
     return rep
